@@ -201,7 +201,7 @@ class RepoIndex:
                 return VStr(val.value)
         if name == 'logger':
             return VBuiltin('logger')
-        if name in ('functools', 'operator', 'itertools'):
+        if name in ('functools', 'operator', 'itertools', 'gen', 'asyncio', 'inspect'):
             return VBuiltin(name)           # standard-library modules whose functions the interpreter models (interp.BUILTINS)
         if name in self.classes:
             return VClass(name)
